@@ -46,13 +46,13 @@ def run_bell(ctx, states, rng, nmodel):
             ctx.evaluations += 1
             vals = dict(concurrence=c, negativity=ng, eof=ef, gme=gm)
             if not all(np.isfinite(v) for v in vals.values()): bad('two-qubit-measures', 'non-finite value', vals)
-            if abs(c - C) > 1e-6: bad('get_concurrence_2qubit', 'differs from max(0, 2 p_max - 1) (also: not invariant under the local unitary)', vals)
-            if abs(ng - N) > 1e-8: bad('get_negativity', 'differs from max(0, p_max - 1/2)', vals)
-            if abs(ef - eof_of_c(C)) > 1e-5: bad('get_eof_2qubit', 'not the monotone function h((1+sqrt(1-C^2))/2) of the concurrence', vals)
+            if core.gt(abs(c - C), 1e-6): bad('get_concurrence_2qubit', 'differs from max(0, 2 p_max - 1) (also: not invariant under the local unitary)', vals)
+            if core.gt(abs(ng - N), 1e-8): bad('get_negativity', 'differs from max(0, p_max - 1/2)', vals)
+            if core.gt(abs(ef - eof_of_c(C)), 1e-5): bad('get_eof_2qubit', 'not the monotone function h((1+sqrt(1-C^2))/2) of the concurrence', vals)
             # compared in concurrence space: the map C -> GME has unbounded slope at C = 1
-            if abs(math.sqrt(max(0.0, 1 - (1 - 2 * gm) ** 2)) - C) > 1e-6: bad('get_gme_2qubit', 'not the monotone function (1-sqrt(1-C^2))/2 of the concurrence', vals)
+            if core.gt(abs(math.sqrt(max(0.0, 1 - (1 - 2 * gm) ** 2)) - C), 1e-6): bad('get_gme_2qubit', 'not the monotone function (1-sqrt(1-C^2))/2 of the concurrence', vals)
             if not (-1e-9 <= c <= 1 + 1e-9 and -1e-9 <= ef <= math.log(2) + 1e-9 and -1e-9 <= gm <= 0.5 + 1e-9 and -1e-9 <= ng <= 0.5 + 1e-9): bad('two-qubit-measures', 'value outside its range', vals)
-            if abs(pmax - 0.5) > 1e-5:
+            if core.gt(abs(pmax - 0.5), 1e-5):
                 if E.is_ppt(rho, (2, 2)) != (not npt): bad('is_ppt', 'PPT verdict differs from p_max <= 1/2', vals)
                 for nm, v in vals.items():
                     if (v > 1e-7) != npt: bad('two-qubit-measures', '%s is non-zero although PPT / zero although NPT' % nm, vals)
@@ -102,7 +102,7 @@ def run_lu_orbit(ctx, states, rng, count):
             ctx.evaluations += 1
             if not all(np.isfinite(v) for v in vals.values()):
                 ctx.violation('C13:two-qubit-measures:non-finite-lu-orbit', 'non-finite value on a local-unitary image of a Bell-diagonal state (C=%g)' % C, dict(data, **{k: repr(v) for k, v in vals.items()}))
-            elif abs(vals['concurrence'] - C) > 1e-6 or abs(vals['eof'] - eof_of_c(C)) > 1e-5 or abs(vals['negativity'] - rf(st['obs']['neg'])) > 1e-7 or abs(math.sqrt(max(0.0, 1 - (1 - 2 * vals['gme']) ** 2)) - C) > 1e-5:
+            elif core.gt(abs(vals['concurrence'] - C), 1e-6) or core.gt(abs(vals['eof'] - eof_of_c(C)), 1e-5) or core.gt(abs(vals['negativity'] - rf(st['obs']['neg'])), 1e-7) or core.gt(abs(math.sqrt(max(0.0, 1 - (1 - 2 * vals['gme']) ** 2)) - C), 1e-5):
                 ctx.violation('C13:two-qubit-measures:lu-invariance', 'closed forms are not invariant under a local unitary', dict(data, **vals))
         except Exception as ex:
             ctx.violation('C13:exception:lu-orbit', type(ex).__name__ + ': ' + str(ex)[:160], data)
@@ -171,10 +171,10 @@ def run_pure(ctx, states, rng, limit):
                      eof_pure=float(E.get_eof_pure(psi.reshape(2, 2))), eof_mixed=float(E.get_eof_2qubit(rho)), gme=float(E.get_gme_2qubit(rho)))
             ctx.evaluations += 1
             if not all(np.isfinite(x) for x in v.values()): ctx.violation('C13:two-qubit-measures:non-finite-pure', 'non-finite value on a pure state', dict(data, **{k: repr(x) for k, x in v.items()}))
-            if abs(v['pure'] - C) > 1e-7: ctx.violation('C13:get_concurrence_pure:formula', 'differs from 2|ad-bc|/|psi|^2', dict(data, **v))
-            if abs(v['mixed'] - C) > 1e-6: ctx.violation('C13:get_concurrence_2qubit:pure-state', 'does not reduce to the pure-state formula on a projector', dict(data, **v))
-            if abs(v['eof_pure'] - eof_of_c(C)) > 1e-6 or abs(v['eof_mixed'] - eof_of_c(C)) > 1e-5: ctx.violation('C13:get_eof:pure-state', 'EOF of a pure state differs from h((1+sqrt(1-C^2))/2)', dict(data, **v))
-            if abs(math.sqrt(max(0.0, 1 - (1 - 2 * v['gme']) ** 2)) - C) > 1e-6: ctx.violation('C13:get_gme_2qubit:pure-state', 'GME of a pure state differs from (1-sqrt(1-C^2))/2', dict(data, **v))
+            if core.gt(abs(v['pure'] - C), 1e-7): ctx.violation('C13:get_concurrence_pure:formula', 'differs from 2|ad-bc|/|psi|^2', dict(data, **v))
+            if core.gt(abs(v['mixed'] - C), 1e-6): ctx.violation('C13:get_concurrence_2qubit:pure-state', 'does not reduce to the pure-state formula on a projector', dict(data, **v))
+            if core.gt(abs(v['eof_pure'] - eof_of_c(C)), 1e-6) or core.gt(abs(v['eof_mixed'] - eof_of_c(C)), 1e-5): ctx.violation('C13:get_eof:pure-state', 'EOF of a pure state differs from h((1+sqrt(1-C^2))/2)', dict(data, **v))
+            if core.gt(abs(math.sqrt(max(0.0, 1 - (1 - 2 * v['gme']) ** 2)) - C), 1e-6): ctx.violation('C13:get_gme_2qubit:pure-state', 'GME of a pure state differs from (1-sqrt(1-C^2))/2', dict(data, **v))
         except Exception as ex:
             ctx.violation('C13:exception:pure', type(ex).__name__ + ': ' + str(ex)[:160], data)
 
